@@ -435,14 +435,16 @@ pub fn run(ctx: &Ctx) -> ! {
 
     // --- hash-seed / layout sweep: S fresh one-world sessions per (case, event) ---------------------
     // plain cases get a few seeds; hash-order amplifiers (corpus C, tag "hash") get many
-    let (s_plain, s_hash) = if ctx.quick() { (2, 16) } else { (12, 96) };
+    let (s_plain, s_hash) = if ctx.quick() { (2, 12) } else { (12, 96) };
     let mut rng = Rng::new(mix(ctx.seed, 0xC14));
     let mut sweep_hash: (Vec<SessionSpec>, Vec<Vec<(usize, usize)>>) = (vec![], vec![]);
     let mut sweep_plain: (Vec<SessionSpec>, Vec<Vec<(usize, usize)>>) = (vec![], vec![]);
     for (i, it) in items.iter().enumerate() {
         for e in 0..it.events.len() {
             let is_hash = it.case.tags.iter().any(|t| t == "hash");
-            let s_sweep = if is_hash { s_hash } else { s_plain };
+            // lifted examples repeat code the plain examples already sweep; the quick tier skips them here
+            let is_lifted = it.case.tags.iter().any(|t| t == "lifted");
+            let s_sweep = if is_hash { s_hash } else if is_lifted && ctx.quick() { 0 } else { s_plain };
             for k in 0..s_sweep {
                 let mut s = golden_session(it, e);
                 s.seed = ctx.seed;
